@@ -14,6 +14,9 @@ STD_PRQL = "prqlc/prqlc/src/semantic/std.prql"
 TRANSFORMS = "prqlc/prqlc/src/semantic/resolver/transforms.rs"
 STATIC_EVAL = "prqlc/prqlc/src/semantic/resolver/static_eval.rs"
 
+# the declarations whose internal function has another name on purpose (read in the pinned tree: `std.version` is the old name of `prql_version`)
+SI_ALIASES = {("version", "prql_version")}
+
 LABELS = []
 FUNCTIONS = []
 RLIMIT = 30
@@ -34,6 +37,7 @@ PRELUDE = r"""
 use vstd::prelude::*;
 verus! {
 pub open spec fn arity_matches(declared_params: nat, unpacked: nat) -> bool { declared_params == unpacked }
+pub open spec fn internal_name_is_own(b: bool) -> bool { b }
 """
 
 
@@ -97,6 +101,14 @@ def rows(X):
                 line, fq, np, "args[0], args[1]" if need == 2 else "args[0]")))
         if not funcs.get(name):
             out.append(("UA.fold.%s" % name, "false", "static_eval folds %s but std.prql has no `internal %s`" % (name, name)))
+    # SI rows: a declaration `let f = .. -> internal X` hands the call to the compiler-internal function of ITS OWN name: X is the qualified name std.<modules>.f, or the bare
+    # name f (the special functions of resolve_special_func), or the one documented alias.  A declaration that names another function's internal silently computes that function.
+    for internal, decls in sorted(funcs.items()):
+        for (fq, np, line) in decls:
+            own = "std." + fq
+            bare = fq.split(".")[-1]
+            ok = internal in (own, bare) or (fq, internal) in SI_ALIASES
+            out.append(("SI.%s" % fq, "internal_name_is_own(%s)" % ("true" if ok else "false"), "std.prql:%d `%s` is `internal %s`" % (line, fq, internal)))
     return out
 
 
